@@ -3,7 +3,7 @@
    The model: edge i of G.edges() is removed iff its own draw rs_i = random.random() > phi;
    the result is (largest component of what is kept) / N. *)
 From Coq Require Import List ZArith QArith Bool Arith.
-From GV Require Import Lib.Tree Model.Perc Proofs.PercP.
+From GV Require Import Lib.Tree Model.Perc Proofs.PercP Proofs.PercMonoP.
 Import ListNotations.
 Local Open Scope nat_scope.
 
@@ -60,6 +60,26 @@ Theorem C18_star :
 Proof. exact star_binomial_count. Qed.
 Print Assumptions C18_star.
 
+(* direction of the comparison, for EVERY graph, every phi <= phi' and every draw sequence (monotone
+   coupling): with the same draws the edges kept at phi are among those kept at phi', the numerator of
+   the returned fraction cannot decrease and the denominator is the same.  Keeping edges with
+   probability 1 - phi (an inverted comparison) violates this. *)
+Theorem C18_monotone_coupling :
+  forall nodes es phi phi' rs, wf nodes es -> (phi <= phi')%Q ->
+    incl (keep es phi rs) (keep es phi' rs) /\
+    fst (percolate nodes es phi rs) <= fst (percolate nodes es phi' rs) /\
+    snd (percolate nodes es phi rs) = snd (percolate nodes es phi' rs).
+Proof. exact percolate_mono. Qed.
+Print Assumptions C18_monotone_coupling.
+
+(* the graph-level fact behind it: adding edges never shrinks a component or the largest one *)
+Theorem C18_more_edges_larger_components :
+  forall nodes es es', wf nodes es' -> incl es es' ->
+    largest nodes es <= largest nodes es' /\
+    (forall v, In v nodes -> incl (comp nodes es v) (comp nodes es' v)).
+Proof. exact largest_mono_edges. Qed.
+Print Assumptions C18_more_edges_larger_components.
+
 (* non-vacuity *)
 Example C18_nonvacuous :
   let nodes := [0;1;2;3;4;5] in
@@ -72,3 +92,13 @@ Proof.
   cbv zeta. split; [|split; [discriminate|vm_compute; repeat split; reflexivity]].
   intros e He. cbn in He. destruct He as [<-|[<-|[<-|[]]]]; cbn; intuition.
 Qed.
+
+(* non-vacuity of the coupling: on a concrete graph and draw sequence the kept set and the value
+   grow STRICTLY between phi = 1/4 and phi = 3/4 *)
+Example C18_monotone_nonvacuous :
+  let nodes := [0;1;2;3;4;5] in
+  let es := [(0,1);(1,2);(3,4)] in
+  let rs := [(1#4)%Q; (3#4)%Q; (1#2)%Q] in
+  keep es (1#4)%Q rs = [(0,1)] /\ keep es (3#4)%Q rs = es /\
+  fst (percolate nodes es (1#4)%Q rs) = 2 /\ fst (percolate nodes es (3#4)%Q rs) = 3.
+Proof. vm_compute. repeat split; reflexivity. Qed.
